@@ -25,9 +25,12 @@ fn now_ms() -> u128 {
 	(ts.tv_sec as u128) * 1000 + (ts.tv_nsec as u128) / 1_000_000
 }
 
-static GOT: std::sync::atomic::AtomicI32 = std::sync::atomic::AtomicI32::new(0);
+// one pending counter per signal number: two signals arriving together must both be seen
+static GOT: [std::sync::atomic::AtomicU32; 65] = [const { std::sync::atomic::AtomicU32::new(0) }; 65];
 extern "C" fn on_sig(s: libc::c_int) {
-	GOT.store(s, std::sync::atomic::Ordering::SeqCst);
+	if (0..65).contains(&s) {
+		GOT[s as usize].fetch_add(1, std::sync::atomic::Ordering::SeqCst);
+	}
 }
 
 fn proc_alive(pid: i64) -> bool {
@@ -108,8 +111,13 @@ fn main() {
 	let start = now_ms();
 	let mut deadline = exit_after.map(|d| start + d);
 	loop {
-		let s = GOT.swap(0, std::sync::atomic::Ordering::SeqCst);
-		if s != 0 {
+		let mut pending: Vec<i32> = Vec::new();
+		for (n, c) in GOT.iter().enumerate() {
+			for _ in 0..c.swap(0, std::sync::atomic::Ordering::SeqCst) {
+				pending.push(n as i32);
+			}
+		}
+		for s in pending {
 			log(&format!("{{\"ev\":\"signal\",\"t\":{},\"pid\":{pid},\"sig\":{s}}}", now_ms()));
 			match on.get(&s).map(String::as_str) {
 				Some("ignore") | None => {}
